@@ -4,7 +4,7 @@ and bombs, laziness/sharing shapes.  Everything derives from the rng passed in."
 
 TYPES = ["num", "bool", "str", "arr", "obj", "fn", "null"]
 FIELD_NAMES = ["a", "b", "c", "d", "k y", "é", "self_", "local_"]
-STRS = ["", "a", "b", "ab", "é", "漢😀", "x y", "q\"r", "line\nfeed", "%s", "0", "text\nblock\n", "t\tab\n\n indented\n", "it's", "back\\slash"]
+STRS = ["", "a", "b", "ab", "é", "漢😀", "x y", "q\"r", "line\nfeed", "%s", "0", "text\nblock\n", "t\tab\n\n indented\n", "it's", "back\\slash", "a/b", "\b\f\r\x7f/"]
 NUMS = [0.0, 1.0, 2.0, 3.0, -1.0, 5.0, 7.0, 10.0, 0.5, -2.5, 1.125, 100.0, 255.0, 1000.0]
 
 N = lambda x: ("num", float(x))
